@@ -11,8 +11,8 @@ ERRS = ["Boom", "States.Timeout", "States.TaskFailed", "Custom.Error"]
 def _run(*a, **k):
     """Scenarios whose arguments were all made concrete by explicit forks (cbool/cint/pick) run the engine outside
     the tracer: only the schedule vector is symbolic and the solver closes the schedule space (~100x faster, which
-    is what buys fan-out 3 and nesting).  map_items / map_conc keep the tracer on: their symbolic item count and
-    MaxConcurrency flow into the engine's Range arithmetic."""
+    is what buys fan-out 3 and nesting).  map_conc keeps the tracer on: its symbolic item count and MaxConcurrency
+    flow into the engine's Range arithmetic."""
     k.setdefault("fast", True)
     return s2.run_scenario(*a, **k)
 
@@ -82,6 +82,9 @@ def par_pass_task(which, fb: bool, c0: int, c1: int, c2: int, c3: int, c4: int, 
 
 def map_items(which, n: int, mc: int, failing: int, c0: int, c1: int, c2: int, c3: int, c4: int, c5: int, c6: int, c7: int):
     """Map over n items (0..3) with MaxConcurrency mc; item `failing` (or none if -1) fails."""
+    # n / mc / failing are made concrete by explicit forks (fast mode): the symbolic flow of the item count and
+    # MaxConcurrency into the engine's Range arithmetic is the subject of C05's map_conc and one-step kernels
+    n = cint(n, 0, 4); mc = cint(mc, 0, 5); failing = cint(failing, -1, 3)
     asl = {"StartAt": "M", "States": {"M": {"Type": "Map", "ItemsPath": "$.items", "MaxConcurrency": mc, "End": True,
            "Iterator": {"StartAt": "I", "States": {"I": task("fi", End=True)}}}}}
     items = [{"i": k} for k in range(n)]
@@ -94,7 +97,7 @@ def map_items(which, n: int, mc: int, failing: int, c0: int, c1: int, c2: int, c
         expect = ("FAILED", "Boom")
     else:
         expect = ("SUCCEEDED", [{"done": k} for k in range(n)])
-    return s2.run_scenario(asl, {"items": items}, [c0, c1, c2, c3, c4, c5, c6, c7], {"fi": w}, which, "STANDARD", expect)
+    return _run(asl, {"items": items}, [c0, c1, c2, c3, c4, c5, c6, c7], {"fi": w}, which, "STANDARD", expect)
 
 
 def two_execs(which, f1: bool, typ: int, c0: int, c1: int, c2: int, c3: int, c4: int, c5: int, c6: int, c7: int):
@@ -298,10 +301,13 @@ SCN = {
     "par_pass_task": ([], 300, 900, ("quick", "thorough")),
     "par_catch": (["0 <= sib < 3"], 600, 1800, ("quick", "thorough")),
     "par_retry": (["0 <= nfail < 3 and 0 <= sib < 2"], 900, 2400, ("thorough",)),
-    "map_items": (["0 <= n <= 2 and 0 <= mc <= 3 and -1 <= failing < 2"], 600, 1800, ("quick", "thorough")),
+    "map_items": (["0 <= n <= @N@ and 0 <= mc <= n + 1 and -1 <= failing < n"], 600, 1800, ("quick", "thorough")),
     "map_conc": (["0 <= n <= @N@ and 0 <= mc <= n + 1"], 600, 2400, ("quick", "thorough")),
     "par3": ([], 900, 2400, ("thorough",)),
 }
+
+
+OWN_BOUNDS = {"map_items": {"quick": {"N": 3}, "thorough": {"N": 4}}}
 
 
 def register(glob, which, names, split=None):
@@ -333,7 +339,7 @@ def register(glob, which, names, split=None):
             f.__module__ = glob["__name__"]
             f.__doc__ = "\n    " + doc + "\n    "
             f = condition(timeout={"quick": tq, "thorough": tt}, tiers=tiers, functions=ENGINE_FUNCS,
-                          bounds={"quick": {"N": 2}, "thorough": {"N": 3}}, note=(fn.__doc__ or "").strip())(f)
+                          bounds=OWN_BOUNDS.get(name, {"quick": {"N": 2}, "thorough": {"N": 3}}), note=(fn.__doc__ or "").strip())(f)
             glob[cname] = f
 
 
